@@ -7,31 +7,38 @@ interruptions, once changes stop, the proxy's partition and group routing tables
 recorded in etcd.  Quantifier: every sequence of lease puts/deletes interleaved with router
 start-up and watch reconnects.
 
-`converges` is for EVERY op sequence (puts, deletes, loads, failed reloads, watches, deliveries,
-closes, invalidations in any order), every accepted-key predicate, and both outcomes of the last
-reconnect read.
+`converges` is for EVERY op sequence (single puts/deletes, multi-key revisions, compactions, loads,
+failed reloads, watch registrations that succeed or hit ErrCompacted, deliveries, closes,
+invalidations in any order), every accepted-key predicate, and both outcomes of the last reconnect
+read (a failed last read only when the resume revision has not been compacted away — otherwise the
+loop keeps reloading and the failed attempt is just one more op of the history).
 -/
 namespace KafVerif.Router
 
-theorem stateAt_append (acc : Nat → Bool) (log : List Ev) (e : Ev) (n : Nat) (h : n ≤ log.length) :
+theorem stateAt_append (acc : Nat → Bool) (log : List (List Ev)) (e : List Ev) (n : Nat) (h : n ≤ log.length) :
     stateAt acc (log ++ [e]) n = stateAt acc log n := by
   unfold stateAt
   rw [List.take_append_of_le_length h]
 
-theorem stateAt_succ (acc : Nat → Bool) (log : List Ev) (n : Nat) (e : Ev) (h : log[n]? = some e) :
-    stateAt acc log (n + 1) = applyEv acc (stateAt acc log n) e := by
+theorem stateAt_succ (acc : Nat → Bool) (log : List (List Ev)) (n : Nat) (e : List Ev) (h : log[n]? = some e) :
+    stateAt acc log (n + 1) = applyEvs acc (stateAt acc log n) e := by
   unfold stateAt
   rw [List.take_add_one, h]
   simp [List.foldl_append]
 
+/-- `t` is the snapshot `s` except for invalidated routes, which are absent -/
+def Agree (t : Nat → Option Nat) (inval : Nat → Bool) (s : Nat → Option Nat) : Prop :=
+  ∀ k, t k = if inval k then none else s k
+
 /-- The table is the accepted-key snapshot at revision `rev`, except for invalidated routes
-(absent until re-learnt); a running watch resumes exactly after `rev`. -/
+(absent until re-learnt); a running watch resumes exactly after `rev`; revisions are non-empty;
+the compaction point is a past revision. -/
 def Inv (acc : Nat → Bool) (w : World) : Prop :=
   w.r.rev ≤ w.log.length ∧ (w.r.watching = true → w.r.cursor = w.r.rev) ∧
-  ∀ k, w.r.table k = if w.r.inval k then none else stateAt acc w.log w.r.rev k
+  Agree w.r.table w.r.inval (stateAt acc w.log w.r.rev) ∧ (∀ b ∈ w.log, b ≠ []) ∧ w.compacted ≤ w.log.length
 
 theorem inv_init (acc : Nat → Bool) : Inv acc init := by
-  refine ⟨by simp [init], by simp [init], ?_⟩
+  refine ⟨by simp [init], by simp [init], ?_, by simp [init], by simp [init]⟩
   intro k; simp [init, stateAt]
 
 theorem applyEv_other (acc : Nat → Bool) (t : Nat → Option Nat) (e : Ev) (k : Nat)
@@ -62,77 +69,128 @@ theorem applyEv_same (acc : Nat → Bool) (t t' : Nat → Option Nat) (e : Ev) (
   | put k' v => simp only [evKey] at hk; subst hk; simp [applyEv, ha]
   | del k' => simp only [evKey] at hk; subst hk; simp [applyEv, ha]
 
-theorem inv_step (acc : Nat → Bool) (w : World) (op : Op) (h : Inv acc w) : Inv acc (step acc true w op) := by
-  obtain ⟨h1, h2, h3⟩ := h
+/-- applying one event keeps the table in agreement with the snapshot (and re-teaches its key) -/
+theorem agree_applyEv (acc : Nat → Bool) (t s : Nat → Option Nat) (inval : Nat → Bool) (e : Ev) (h : Agree t inval s) :
+    Agree (applyEv acc t e) (fun x => if x = evKey e ∧ acc x then false else inval x) (applyEv acc s e) := by
+  intro x
+  by_cases hx : x = evKey e ∧ acc x = true
+  · have hi : (if x = evKey e ∧ acc x = true then false else inval x) = false := if_pos hx
+    simp only [hi, Bool.false_eq_true, if_false]
+    exact applyEv_same acc _ _ e x hx
+  · have hi : (if x = evKey e ∧ acc x = true then false else inval x) = inval x := if_neg hx
+    simp only [hi]
+    rw [applyEv_other acc _ e x hx, applyEv_other acc _ e x hx]
+    exact h x
+
+/-- the event loop of the FIXED code over one revision's events: every event is applied, `rev`
+ends at that revision (`if ev.ModRevision > rev { rev = ev.ModRevision }`) -/
+theorem loop_fixed (acc : Nat → Bool) (var : Variant) (hvar : var ≠ .skipSameRev) (R : Nat) (evs : List Ev) (st : Loop)
+    (s : Nat → Option Nat) (hrev : st.rev ≤ R) (hag : Agree st.table st.inval s) :
+    Agree (evs.foldl (procEv acc var R) st).table (evs.foldl (procEv acc var R) st).inval (applyEvs acc s evs) ∧
+      (evs.foldl (procEv acc var R) st).rev = (if evs = [] then st.rev else R) := by
+  induction evs generalizing st s with
+  | nil => exact ⟨hag, by simp⟩
+  | cons e evs ih =>
+    have hp : procEv acc var R st e =
+        { table := applyEv acc st.table e, rev := if R > st.rev then R else st.rev,
+          inval := fun x => if x = evKey e ∧ acc x then false else st.inval x } := by
+      cases var <;> simp_all [procEv]
+    have hrev' : (procEv acc var R st e).rev = R := by
+      rw [hp]; simp only; split <;> omega
+    have := ih (procEv acc var R st e) (applyEv acc s e) (by omega)
+      (by rw [hp]; exact agree_applyEv acc st.table s st.inval e hag)
+    simp only [List.foldl_cons, applyEvs] at this ⊢
+    refine ⟨this.1, ?_⟩
+    rw [this.2, hrev']
+    split <;> simp
+
+theorem inv_step (acc : Nat → Bool) (var : Variant) (hvar : var = .fixed) (w : World) (op : Op) (h : Inv acc w) :
+    Inv acc (step acc var w op) := by
+  subst hvar
+  obtain ⟨h1, h2, h3, h4, h5⟩ := h
+  have happ : ∀ e : List Ev, e ≠ [] →
+      Inv acc { w with log := w.log ++ [e] } := by
+    intro e he
+    refine ⟨by simp; omega, h2, ?_, ?_, by simp; omega⟩
+    · intro x; simp only; rw [stateAt_append acc _ _ _ h1]; exact h3 x
+    · intro b hb
+      simp only [List.mem_append, List.mem_singleton] at hb
+      rcases hb with hb | rfl
+      · exact h4 b hb
+      · exact he
   cases op with
-  | put k v =>
-    refine ⟨by simp [step]; omega, h2, ?_⟩
-    intro x; simp only [step]; rw [stateAt_append acc _ _ _ h1]; exact h3 x
+  | put k v => exact happ _ (by simp)
   | del k =>
-    refine ⟨by simp [step]; omega, h2, ?_⟩
-    intro x; simp only [step]; rw [stateAt_append acc _ _ _ h1]; exact h3 x
+    simp only [step]
+    split
+    · exact happ _ (by simp)
+    · exact ⟨h1, h2, h3, h4, h5⟩
+  | batch evs =>
+    simp only [step]
+    split
+    · rename_i hne
+      exact happ evs (by intro he; subst he; simp at hne)
+    · exact ⟨h1, h2, h3, h4, h5⟩
+  | compact => exact ⟨h1, h2, h3, h4, by simp [step]⟩
   | load =>
     simp only [step]
     split
-    · exact ⟨h1, h2, h3⟩
+    · exact ⟨h1, h2, h3, h4, h5⟩
     · rename_i hw
-      refine ⟨by simp, by simp [hw], ?_⟩
+      refine ⟨by simp, by simp [hw], ?_, h4, h5⟩
       intro x; simp
-  | loadFail => exact ⟨h1, h2, h3⟩
+  | loadFail => exact ⟨h1, h2, h3, h4, h5⟩
   | watch =>
     simp only [step]
     split
-    · exact ⟨h1, h2, h3⟩
-    · exact ⟨h1, by simp, h3⟩
+    · exact ⟨h1, h2, h3, h4, h5⟩
+    · split
+      · exact ⟨h1, by simp, h3, h4, h5⟩
+      · exact ⟨h1, h2, h3, h4, h5⟩
   | deliver =>
     simp only [step]
     split
     · rename_i hw
       split
-      · rename_i e he
+      · rename_i evs he
         have hc := h2 hw
-        have hlt : w.r.cursor < w.log.length := by
-          have := List.getElem?_eq_some_iff.mp he; exact this.1
-        refine ⟨by simp; omega, by simp, ?_⟩
-        intro x
-        simp only
-        rw [stateAt_succ acc w.log w.r.cursor e he]
-        by_cases hx : x = evKey e ∧ acc x = true
-        · have hi : (if x = evKey e ∧ acc x = true then false else w.r.inval x) = false := if_pos hx
-          rw [hi]
-          simp only [Bool.false_eq_true, if_false]
-          exact applyEv_same acc _ _ e x hx
-        · have hx' : ¬ (x = evKey e ∧ acc x = true) := hx
-          simp only [hx', if_false]
-          rw [applyEv_other acc _ e x hx, applyEv_other acc _ e x hx, h3 x, hc]
-      · exact ⟨h1, h2, h3⟩
-    · exact ⟨h1, h2, h3⟩
-  | close => exact ⟨h1, by simp [step], h3⟩
+        have hlt : w.r.cursor < w.log.length := (List.getElem?_eq_some_iff.mp he).1
+        have hne : evs ≠ [] := h4 evs (List.mem_of_getElem? he)
+        have hl := loop_fixed acc .fixed (by simp) (w.r.cursor + 1) evs ⟨w.r.table, w.r.rev, w.r.inval⟩
+          (stateAt acc w.log w.r.rev) (by simp; omega) h3
+        simp only [hne, if_false] at hl
+        refine ⟨by simp only [hl.2]; omega, by simp [hl.2], ?_, h4, h5⟩
+        simp only [hl.2]
+        rw [stateAt_succ acc w.log w.r.cursor evs he]
+        rw [hc] at hl ⊢
+        exact hl.1
+      · exact ⟨h1, h2, h3, h4, h5⟩
+    · exact ⟨h1, h2, h3, h4, h5⟩
+  | close => exact ⟨h1, by simp [step], h3, h4, h5⟩
   | invalidate k =>
-    refine ⟨h1, h2, ?_⟩
+    refine ⟨h1, h2, ?_, h4, h5⟩
     intro x; simp only [step]
     by_cases hx : x = k
     · simp [hx]
     · simp only [hx, if_false]; exact h3 x
 
-theorem inv_run (acc : Nat → Bool) (w : World) (ops : List Op) (h : Inv acc w) : Inv acc (run acc true w ops) := by
+theorem inv_run (acc : Nat → Bool) (w : World) (ops : List Op) (h : Inv acc w) : Inv acc (run acc .fixed w ops) := by
   induction ops generalizing w with
   | nil => exact h
-  | cons op ops ih => exact ih _ (inv_step acc w op h)
+  | cons op ops ih => exact ih _ (inv_step acc .fixed rfl w op h)
 
 theorem deliverN_spec (acc : Nat → Bool) (n : Nat) (w : World) (h : Inv acc w) (hw : w.r.watching = true)
     (hn : n = w.log.length - w.r.cursor) :
-    Inv acc (deliverN acc true n w) ∧ (deliverN acc true n w).r.rev = (deliverN acc true n w).log.length := by
+    Inv acc (deliverN acc .fixed n w) ∧ (deliverN acc .fixed n w).r.rev = (deliverN acc .fixed n w).log.length ∧
+      (deliverN acc .fixed n w).r.watching = true := by
   induction n generalizing w with
   | zero =>
-    refine ⟨h, ?_⟩
-    obtain ⟨h1, h2, _⟩ := h
-    have := h2 hw
-    simp only [deliverN]; omega
+    have := h.2.1 hw
+    have := h.1
+    exact ⟨h, by simp only [deliverN]; omega, hw⟩
   | succ n ih =>
-    have hinv := inv_step acc w .deliver h
-    obtain ⟨h1, h2, _⟩ := h
-    have hc := h2 hw
+    have hinv := inv_step acc .fixed rfl w .deliver h
+    have hc := h.2.1 hw
     have hlt : w.r.cursor < w.log.length := by omega
     have he : w.log[w.r.cursor]? = some w.log[w.r.cursor] := List.getElem?_eq_getElem hlt
     simp only [deliverN]
@@ -140,37 +198,61 @@ theorem deliverN_spec (acc : Nat → Bool) (n : Nat) (w : World) (h : Inv acc w)
     · simp [step, hw, he]
     · simp [step, hw, he]; omega
 
-theorem quiesce_spec (acc : Nat → Bool) (reloadOk : Bool) (w0 : World) (hrun : Inv acc w0) :
-    Inv acc (quiesce acc true reloadOk w0) ∧
-      (quiesce acc true reloadOk w0).r.rev = (quiesce acc true reloadOk w0).log.length := by
+/-- the last reconnect read may fail only if the resume revision is still in etcd's history
+(otherwise every Watch fails with ErrCompacted and the loop goes on reloading) -/
+def CanQuiesce (reloadOk : Bool) (w : World) : Prop :=
+  w.r.watching = true ∨ reloadOk = true ∨ ¬ (w.r.rev + 1 < w.compacted)
+
+theorem quiesce_spec (acc : Nat → Bool) (reloadOk : Bool) (w0 : World) (hrun : Inv acc w0) (hq : CanQuiesce reloadOk w0) :
+    Inv acc (quiesce acc .fixed reloadOk w0) ∧
+      (quiesce acc .fixed reloadOk w0).r.rev = (quiesce acc .fixed reloadOk w0).log.length ∧
+      (quiesce acc .fixed reloadOk w0).r.watching = true := by
   unfold quiesce
   by_cases hw : w0.r.watching = true
   · simp only [hw, if_true]
     exact deliverN_spec acc _ w0 hrun hw rfl
   · have hwf : w0.r.watching = false := by simpa using hw
     simp only [hwf, Bool.false_eq_true, if_false]
-    have hl := inv_step acc w0 (if reloadOk = true then Op.load else Op.loadFail) hrun
-    have hwl : (step acc true w0 (if reloadOk = true then Op.load else Op.loadFail)).r.watching = false := by
-      cases reloadOk <;> simp [step, hwf]
-    have hww := inv_step acc _ .watch hl
+    have hl := inv_step acc .fixed rfl w0 (if reloadOk = true then Op.load else Op.loadFail) hrun
+    have hwl : (step acc .fixed w0 (if reloadOk = true then Op.load else Op.loadFail)).r.watching = false ∧
+        startOk .fixed (step acc .fixed w0 (if reloadOk = true then Op.load else Op.loadFail)) = true := by
+      cases reloadOk with
+      | true =>
+        have := hrun.2.2.2.2
+        simp [step, hwf, startOk]; omega
+      | false =>
+        rcases hq with hq | hq | hq
+        · simp [hwf] at hq
+        · simp at hq
+        · simp only [Bool.false_eq_true, if_false, step, hwf, startOk]; simpa using hq
+    have hww := inv_step acc .fixed rfl _ .watch hl
     apply deliverN_spec acc _ _ hww
-    · generalize step acc true w0 (if reloadOk = true then Op.load else Op.loadFail) = w1 at hwl
-      simp [step, hwl]
+    · generalize step acc .fixed w0 (if reloadOk = true then Op.load else Op.loadFail) = w1 at hwl
+      simp [step, hwl.1, hwl.2]
     · rfl
 
-/-- **C20 (convergence).**  Whatever happened before — any interleaving of lease puts/deletes
-with loads, failed reloads, watch (re)registrations, deliveries, watch closures and
-invalidations — once changes stop and the router has its watch back (the reconnect read may have
-succeeded or failed) and the owed events are delivered, every route equals the owner recorded in
-etcd; the only exception are routes the proxy itself dropped with `Invalidate` and that no later
-event or reload re-taught, which are absent (never wrong). -/
-theorem _root_.KafVerif.C20.converges (acc : Nat → Bool) (ops : List Op) (reloadOk : Bool) (k : Nat) :
-    (quiesce acc true reloadOk (run acc true init ops)).r.table k =
-      if (quiesce acc true reloadOk (run acc true init ops)).r.inval k then none
-      else stateAt acc (quiesce acc true reloadOk (run acc true init ops)).log
-        (quiesce acc true reloadOk (run acc true init ops)).log.length k := by
-  have key := quiesce_spec acc reloadOk _ (inv_run acc init ops (inv_init acc))
-  rw [key.1.2.2 k, key.2]
+/-- **C20 (convergence).**  Whatever happened before — any interleaving of lease changes (single
+keys, several keys in one revision), compactions, loads, failed reloads, watch (re)registrations
+(successful or ErrCompacted), deliveries, watch closures and invalidations — once changes stop and
+the router has its watch back and the owed events are delivered, the router IS watching and every
+route equals the owner recorded in etcd; the only exception are routes the proxy itself dropped
+with `Invalidate` and that no later event or reload re-taught, which are absent (never wrong). -/
+theorem _root_.KafVerif.C20.converges (acc : Nat → Bool) (ops : List Op) (reloadOk : Bool) (k : Nat)
+    (hq : CanQuiesce reloadOk (run acc .fixed init ops)) :
+    (quiesce acc .fixed reloadOk (run acc .fixed init ops)).r.watching = true ∧
+    (quiesce acc .fixed reloadOk (run acc .fixed init ops)).r.table k =
+      if (quiesce acc .fixed reloadOk (run acc .fixed init ops)).r.inval k then none
+      else stateAt acc (quiesce acc .fixed reloadOk (run acc .fixed init ops)).log
+        (quiesce acc .fixed reloadOk (run acc .fixed init ops)).log.length k := by
+  have key := quiesce_spec acc reloadOk _ (inv_run acc init ops (inv_init acc)) hq
+  refine ⟨key.2.2, ?_⟩
+  rw [key.1.2.2.1 k, key.2.1]
+
+/-- a successful reconnect read always gets the watch back: the loop cannot stay stuck on a
+compacted revision -/
+theorem _root_.KafVerif.C20.reload_unsticks (acc : Nat → Bool) (ops : List Op) :
+    (quiesce acc .fixed true (run acc .fixed init ops)).r.watching = true :=
+  (quiesce_spec acc true _ (inv_run acc init ops (inv_init acc)) (Or.inr (Or.inl rfl))).2.2
 
 /-! ### no invalidation in the history: exact equality -/
 
@@ -178,96 +260,127 @@ def isInvalidate : Op → Bool
   | .invalidate _ => true
   | _ => false
 
-theorem noinval_step (acc : Nat → Bool) (fixed : Bool) (w : World) (op : Op) (h : ∀ x, w.r.inval x = false)
-    (hop : isInvalidate op = false) : ∀ x, (step acc fixed w op).r.inval x = false := by
+theorem noinval_loop (acc : Nat → Bool) (var : Variant) (R : Nat) (evs : List Ev) (st : Loop) (h : ∀ x, st.inval x = false) :
+    ∀ x, (evs.foldl (procEv acc var R) st).inval x = false := by
+  induction evs generalizing st with
+  | nil => exact h
+  | cons e evs ih =>
+    simp only [List.foldl_cons]
+    apply ih
+    intro x
+    cases var <;> simp only [procEv] <;> (try split) <;> (try simp only []) <;> (try split) <;> simp [h x]
+
+theorem noinval_step (acc : Nat → Bool) (var : Variant) (w : World) (op : Op) (h : ∀ x, w.r.inval x = false)
+    (hop : isInvalidate op = false) : ∀ x, (step acc var w op).r.inval x = false := by
   intro x
   cases op with
   | put k v => exact h x
-  | del k => exact h x
+  | del k => simp only [step]; split <;> exact h x
+  | batch evs => simp only [step]; split <;> exact h x
+  | compact => exact h x
   | load => simp only [step]; split <;> simp [h x]
   | loadFail => exact h x
-  | watch => simp only [step]; split <;> simp [h x]
+  | watch => simp only [step]; split <;> (try split) <;> simp [h x]
   | deliver =>
     simp only [step]
     split
     · split
-      · simp only; split <;> simp [h x]
+      · exact noinval_loop acc var _ _ _ h x
       · exact h x
     · exact h x
   | close => exact h x
   | invalidate k => simp [isInvalidate] at hop
 
-theorem noinval_run (acc : Nat → Bool) (fixed : Bool) (w : World) (ops : List Op) (h : ∀ x, w.r.inval x = false)
-    (hops : ∀ op ∈ ops, isInvalidate op = false) : ∀ x, (run acc fixed w ops).r.inval x = false := by
+theorem noinval_run (acc : Nat → Bool) (var : Variant) (w : World) (ops : List Op) (h : ∀ x, w.r.inval x = false)
+    (hops : ∀ op ∈ ops, isInvalidate op = false) : ∀ x, (run acc var w ops).r.inval x = false := by
   induction ops generalizing w with
   | nil => exact h
   | cons op ops ih =>
-    exact ih _ (noinval_step acc fixed w op h (hops op (by simp))) (fun o ho => hops o (by simp [ho]))
+    exact ih _ (noinval_step acc var w op h (hops op (by simp))) (fun o ho => hops o (by simp [ho]))
 
-theorem noinval_deliverN (acc : Nat → Bool) (fixed : Bool) (n : Nat) (w : World) (h : ∀ x, w.r.inval x = false) :
-    ∀ x, (deliverN acc fixed n w).r.inval x = false := by
+theorem noinval_deliverN (acc : Nat → Bool) (var : Variant) (n : Nat) (w : World) (h : ∀ x, w.r.inval x = false) :
+    ∀ x, (deliverN acc var n w).r.inval x = false := by
   induction n generalizing w with
   | zero => exact h
-  | succ n ih => exact ih _ (noinval_step acc fixed w .deliver h rfl)
+  | succ n ih => exact ih _ (noinval_step acc var w .deliver h rfl)
 
-/-- **C20 (the property as stated).**  For every sequence of lease puts/deletes interleaved with
-router start-up, watch closures, successful and failed reconnect reads and deliveries (no
-`Invalidate` calls): once changes stop and the owed events are delivered, the routing table equals
-the owners recorded in etcd, on every key. -/
+/-- **C20 (the property as stated).**  For every sequence of lease changes (including several keys
+in one revision) and compactions interleaved with router start-up, watch closures, successful and
+failed reconnect reads and deliveries (no `Invalidate` calls): once changes stop and the owed
+events are delivered, the routing table equals the owners recorded in etcd, on every key. -/
 theorem _root_.KafVerif.C20.converges_exact (acc : Nat → Bool) (ops : List Op) (reloadOk : Bool)
+    (hq : CanQuiesce reloadOk (run acc .fixed init ops))
     (hno : ∀ op ∈ ops, isInvalidate op = false) (k : Nat) :
-    (quiesce acc true reloadOk (run acc true init ops)).r.table k =
-      stateAt acc (quiesce acc true reloadOk (run acc true init ops)).log
-        (quiesce acc true reloadOk (run acc true init ops)).log.length k := by
-  have hni : (quiesce acc true reloadOk (run acc true init ops)).r.inval k = false := by
-    have h0 := noinval_run acc true init ops (by simp [init]) hno
+    (quiesce acc .fixed reloadOk (run acc .fixed init ops)).r.table k =
+      stateAt acc (quiesce acc .fixed reloadOk (run acc .fixed init ops)).log
+        (quiesce acc .fixed reloadOk (run acc .fixed init ops)).log.length k := by
+  have hni : (quiesce acc .fixed reloadOk (run acc .fixed init ops)).r.inval k = false := by
+    have h0 := noinval_run acc .fixed init ops (by simp [init]) hno
     unfold quiesce
     apply noinval_deliverN
-    generalize run acc true init ops = w0 at h0
+    generalize run acc .fixed init ops = w0 at h0
     intro x
     split
     · exact h0 x
     · apply noinval_step _ _ _ _ _ rfl
       apply noinval_step _ _ _ _ h0
       cases reloadOk <;> rfl
-  rw [KafVerif.C20.converges acc ops reloadOk k, hni]
+  rw [(KafVerif.C20.converges acc ops reloadOk k hq).2, hni]
   simp
 
 /-- A route that is present is never different from etcd's owner after quiescence, even with
 invalidations (an invalidated route is absent, not wrong). -/
 theorem _root_.KafVerif.C20.present_routes_correct (acc : Nat → Bool) (ops : List Op) (reloadOk : Bool) (k v : Nat)
-    (h : (quiesce acc true reloadOk (run acc true init ops)).r.table k = some v) :
-    stateAt acc (quiesce acc true reloadOk (run acc true init ops)).log
-        (quiesce acc true reloadOk (run acc true init ops)).log.length k = some v := by
-  rw [KafVerif.C20.converges acc ops reloadOk k] at h
+    (hq : CanQuiesce reloadOk (run acc .fixed init ops))
+    (h : (quiesce acc .fixed reloadOk (run acc .fixed init ops)).r.table k = some v) :
+    stateAt acc (quiesce acc .fixed reloadOk (run acc .fixed init ops)).log
+        (quiesce acc .fixed reloadOk (run acc .fixed init ops)).log.length k = some v := by
+  rw [(KafVerif.C20.converges acc ops reloadOk k hq).2] at h
   split at h
   · simp at h
   · exact h
 
-/-! ### the code as found violates the property (kept so a regression is recognised) -/
+/-! ### variants that violate the property (kept so a regression is recognised) -/
 
-/-- start-up gap: a lease put committed between `loadAll`'s read and the registration of the
-revision-less watch is never applied; after quiescence the table still lacks the owner. -/
+/-- code as found, start-up gap: a lease put committed between `loadAll`'s read and the
+registration of the revision-less watch is never applied. -/
 theorem _root_.KafVerif.C20.norev_violates_startup :
-    (quiesce (fun _ => true) false true (run (fun _ => true) false init [.load, .put 0 7, .watch])).r.table 0 = none ∧
-    stateAt (fun _ => true) (quiesce (fun _ => true) false true (run (fun _ => true) false init [.load, .put 0 7, .watch])).log 1 0
+    (quiesce (fun _ => true) .noRev true (run (fun _ => true) .noRev init [.load, .put 0 7, .watch])).r.table 0 = none ∧
+    stateAt (fun _ => true) (quiesce (fun _ => true) .noRev true (run (fun _ => true) .noRev init [.load, .put 0 7, .watch])).log 1 0
       = some 7 := by
   decide
 
-/-- reconnect with a failed reload: events committed while the watch was down are lost for good. -/
+/-- code as found, reconnect with a failed reload: events committed while the watch was down are lost. -/
 theorem _root_.KafVerif.C20.norev_violates_failed_reload :
-    (quiesce (fun _ => true) false false
-      (run (fun _ => true) false init [.put 0 1, .load, .watch, .close, .del 0, .put 1 2])).r.table 0 = some 1 ∧
-    stateAt (fun _ => true) [.put 0 1, .del 0, .put 1 2] 3 0 = none := by
+    (quiesce (fun _ => true) .noRev false
+      (run (fun _ => true) .noRev init [.put 0 1, .load, .watch, .close, .del 0, .put 1 2])).r.table 0 = some 1 ∧
+    stateAt (fun _ => true) [[.put 0 1], [.del 0], [.put 1 2]] 3 0 = none := by
   decide
 
-/-! ### non-vacuity: concrete histories with gaps, closures and a failed reload -/
-
-example : (quiesce (fun _ => true) true false
-    (run (fun _ => true) true init [.put 0 1, .load, .put 0 2, .watch, .deliver, .close, .del 0, .put 1 2])).r.table 1 = some 2 := by
+/-- "skip events with ModRevision <= rev": a session revoke deletes two lease keys in ONE revision;
+only the first delete is applied, the second route stays on the departed broker for good. -/
+theorem _root_.KafVerif.C20.skipSameRev_violates :
+    (quiesce (fun _ => true) .skipSameRev true
+      (run (fun _ => true) .skipSameRev init [.put 0 1, .put 1 1, .load, .watch, .batch [.del 0, .del 1]])).r.table 1 = some 1 ∧
+    stateAt (fun _ => true) [[.put 0 1], [.put 1 1], [.del 0, .del 1]] 3 1 = none := by
   decide
-example : (quiesce (fun k => k != 3) true true
-    (run (fun k => k != 3) true init [.load, .put 3 1, .put 2 5, .watch, .invalidate 2])).r.table 2 = some 5 := by
+
+/-! ### non-vacuity: gaps, closures, a failed reload, a multi-key revision, a compaction -/
+
+example : (quiesce (fun _ => true) .fixed false
+    (run (fun _ => true) .fixed init [.put 0 1, .load, .put 0 2, .watch, .deliver, .close, .del 0, .put 1 2])).r.table 1 = some 2 := by
+  decide
+example : (quiesce (fun k => k != 3) .fixed true
+    (run (fun k => k != 3) .fixed init [.load, .put 3 1, .put 2 5, .watch, .invalidate 2])).r.table 2 = some 5 := by
+  decide
+example : (quiesce (fun _ => true) .fixed true
+    (run (fun _ => true) .fixed init [.put 0 1, .put 1 1, .load, .watch, .batch [.del 0, .del 1]])).r.table 1 = none := by
+  decide
+-- watch cut + change + compaction + failed reload: the watch fails (ErrCompacted), the next reload unsticks it
+example : (run (fun _ => true) .fixed init [.put 0 1, .load, .watch, .close, .put 0 2, .put 1 3, .compact, .loadFail, .watch]).r.watching = false := by
+  decide
+example : (quiesce (fun _ => true) .fixed true
+    (run (fun _ => true) .fixed init [.put 0 1, .load, .watch, .close, .put 0 2, .put 1 3, .compact, .loadFail, .watch])).r.table 0 = some 2 := by
   decide
 
 end KafVerif.Router
